@@ -9,9 +9,9 @@ External calls are parameters:
   `CheckRedirect` (the closure installed by `Redirects(n)`);
 * the response body → the reader algebra below (`BodySt`, `pump`), with an arbitrary
   chunk-size oracle.
-The model follows the code literally, including the early returns on a body read error
-(DESIGN §8 #7): `res.Body` holds the bytes read so far, `BytesIn`, `BytesOut`, `Code`
-and `Headers` stay at their zero values.
+The model follows the code literally, including the early returns on a body read error:
+`res.Body` holds the bytes read so far and (since fix bc20399, DESIGN §8 #7) `BytesIn` and
+`BytesOut` are assigned before those returns; `Code` and `Headers` stay at their zero values.
 -/
 import Vegeta.Go.Duration
 namespace Vegeta.Model.Hit
@@ -273,25 +273,29 @@ def Result.zero (name : Bytes) (seq : Nat) : Result :=
 /-- `uint16(r.StatusCode)` -/
 def toUint16 (i : Int) : Nat := (i % 65536).toNat
 
-/-- The part of `hit` after `client.Do` returned a response. -/
+/-- The part of `hit` after `client.Do` returned a response:
+`if req.ContentLength != -1 { res.BytesOut = … }`, `res.Body, err = io.ReadAll(body)`,
+`res.BytesIn = uint64(len(res.Body))`, and only then the early returns on a read error
+(in `ReadAll` or in the drain `io.Copy(io.Discard, r.Body)`). -/
 def consume (cfg : Cfg) (res0 : Result) (req : RequestSeen) (r : Resp) (chunks : List Nat) : Out :=
   let s0 := BodySt.ofResp r chunks
   let fuel := s0.data.length + 1
   let lim : Option Nat := if cfg.maxBody ≥ 0 then some cfg.maxBody.toNat else none
+  let res1 : Result := { res0 with
+    bytesOut := if req.contentLength ≠ -1 then (wrapU64 req.contentLength).toNat else res0.bytesOut }
   match pump fuel lim s0 [] with
   | ((body, true), s1) =>
-    -- `res.Body, err = io.ReadAll(body); err != nil` → return; deferred Close, deferred `res.Error = err.Error()`
-    { res := { res0 with body := body, error := r.readErr }, req := some req, obtained := true,
+    -- `err != nil` after ReadAll → return; deferred Close, deferred `res.Error = err.Error()`
+    { res := { res1 with body := body, bytesIn := body.length, error := r.readErr }, req := some req, obtained := true,
       bodyLog := s1.log ++ [.close], stopped := false }
   | ((body, false), s1) =>
     match pump fuel none s1 [] with
     | ((_, true), s2) =>
-      { res := { res0 with body := body, error := r.readErr }, req := some req, obtained := true,
+      { res := { res1 with body := body, bytesIn := body.length, error := r.readErr }, req := some req, obtained := true,
         bodyLog := s2.log ++ [.close], stopped := false }
     | ((_, false), s2) =>
       let code := toUint16 r.status
-      { res := { res0 with body := body, bytesIn := body.length,
-                           bytesOut := if req.contentLength ≠ -1 then (wrapU64 req.contentLength).toNat else 0,
+      { res := { res1 with body := body, bytesIn := body.length,
                            code := code,
                            error := if code < 200 ∨ code ≥ 400 then r.statusText else [],
                            headers := some r.header },
